@@ -51,7 +51,8 @@ Fixpoint settle (fuel : nat) (s : st) : st :=
           end
       end
   end.
-Definition fuel_of (s : st) : nat := 3 * length (q s) + 12.
+(* the variant bounds the number of steps any thread other than the ticker can take (Variant.working_decreases) *)
+Definition fuel_of (s : st) : nat := V s.
 Definition sstep (s : st) (t : tid) : st := match step s t with Some s' => s' | None => s end.
 (* in tick mode (real ticker with a short period) the harness additionally waits for the periodic flush *)
 Definition settle' (tm : bool) (s : st) : st :=
@@ -102,6 +103,19 @@ Fixpoint model_run (tickmode : bool) (s : st) (acts : list act) : list obs :=
   | a :: r => let '(s', done) := apply_act tickmode s a in
               model_obs s s' a done :: model_run tickmode s' r
   end.
+
+(* ---------- scripts the harness can produce ---------- *)
+(* The harness issues one control call at a time (a second one is dropped from the script) and stops at the
+   panic of a Flush/Close after Close; [script_ok] says exactly that of a script, replayed on the model. *)
+Fixpoint script_ok_from (tickmode : bool) (s : st) (acts : list act) : bool :=
+  match acts with
+  | [] => true
+  | a :: r =>
+      (match a with ACtl _ => negb (mid_call s) && negb (closed s) | _ => true end)
+      && script_ok_from tickmode (fst (apply_act tickmode s a)) r
+  end.
+Definition script_ok (tickmode : bool) (cap bsize : Z) (acts : list act) : bool :=
+  ctl_ordered (nth 1 (progs_of acts) []) && script_ok_from tickmode (init cap bsize (progs_of acts)) acts.
 
 (* ---------- comparison ---------- *)
 Definition oz_eqb (a b : option (list Z)) : bool :=
